@@ -66,6 +66,7 @@ class Census:
 		self.created = 0
 		self.installed = False
 		self.limit = 4000
+		self.hold = None          # when a list: strong references to everything created (pytest calibration plugin only)
 
 	def install(self):
 		if self.installed:
@@ -76,6 +77,8 @@ class Census:
 		def init(self, *a, **k):
 			orig(self, *a, **k)
 			census.created += 1
+			if census.hold is not None:
+				census.hold.append(self)
 			try:
 				census.refs.append(weakref.ref(self))
 			except TypeError:
